@@ -107,8 +107,25 @@ pub fn classify(stats: &mut Stats, g: &GCase, a: &Analysis) -> cfg::Shape {
         0..=5 => "lalr-states:<=5",
         6..=11 => "lalr-states:6-11",
         12..=29 => "lalr-states:12-29",
-        _ => "lalr-states:>=30",
+        30..=255 => "lalr-states:30-255",
+        _ => "lalr-states:>=256",
     });
+    // sizes beyond what random grammars reach (scaled families, large seeds)
+    if g.cfg.n_t > 64 {
+        stats.class("size:terminals>64");
+    }
+    if g.cfg.n_n > 64 {
+        stats.class("size:nonterminals>64");
+    }
+    if g.cfg.rules.len() > 128 {
+        stats.class("size:rules>128");
+    }
+    if g.cfg.rules.iter().any(|r| r.rhs.len() > 16) {
+        stats.class("size:rule-longer-than-16");
+    }
+    if g.spec.nts.iter().any(|n| n.variants.len() > 16) {
+        stats.class("size:enum-with>16-variants");
+    }
     sh
 }
 
